@@ -33,20 +33,44 @@ class LoopCtx:
         self.assigned = assigned or []
         self.node = node
 
+    def _alias(self, name, have):
+        """The current name of a local the contract knows under the name it had on the unchanged tree: same position in
+        the function's order of first bindings (baseline/roles.json)."""
+        if name in have:
+            return name
+        from .front import local_binding_order
+        fi = self.frame.fi
+        roles = _roles().get(fi.key) if fi is not None else None
+        if roles and name in roles.get("locals", []):
+            k = roles["locals"].index(name)
+            now = local_binding_order(fi.node)
+            if k < len(now) and len(now) == len(roles["locals"]):
+                return now[k]
+        return name
+
     def local(self, name):
         f = self.frame
+        have = set()
+        g = f
+        while g is not None:
+            have.update(g.locals)
+            g = g.parent
+        name = self._alias(name, have)
         while f is not None:
             if name in f.locals:
                 return f.locals[name]
             f = f.parent
         raise KeyError(name)
 
+    def iter_pre_local(self, name):
+        return self.iter_pre_locals[self._alias(name, set(self.iter_pre_locals))]
+
     def acc(self, k):
         """k-th local assigned in the loop body, by order of first assignment (robust to renaming)."""
         return self.local(self.assigned[k])
 
     def pre_local(self, name):
-        return self.pre_locals[name]
+        return self.pre_locals[self._alias(name, set(self.pre_locals))]
 
     # heaps for loop specifications
     def now(self):
@@ -89,6 +113,23 @@ class LoopCtx:
     def cid(self, name):
         t = self.I.table
         return t.ids[name] if name in t.ids else self.I.index.find_class(name).cid
+
+
+_ROLES = {}
+
+
+def _roles():
+    """baseline/roles.json: per function of the unchanged tree, the order of first bindings of its locals and the text of
+    its loops (written by `bin/check --mkbaseline`; only consulted when a name / loop text of a contract is not found)"""
+    if "d" not in _ROLES:
+        import json
+        import os
+        p = os.path.join(os.path.dirname(os.path.dirname(os.path.abspath(__file__))), "baseline", "roles.json")
+        try:
+            _ROLES["d"] = json.load(open(p))
+        except Exception:
+            _ROLES["d"] = {}
+    return _ROLES["d"]
 
 
 def assigned_names(stmts):
@@ -316,6 +357,8 @@ class StmtMixin:
                 out.append(e)
             return out
         nm = self.table.names[cid]
+        if nm in ("function", "method", "type", "module", "object", "Lock", "Event", "Thread", "Future"):
+            self.raise_("TypeError", self.anchor(node, "unpack"))        # not iterable
         if nm not in ("list", "tuple"):
             raise Unsupported("unpack of %s" % nm)
         r = Val.r(v)
@@ -465,7 +508,15 @@ class StmtMixin:
         lab = anchors.get(id(node))
         # loops may also be named by what they iterate over (robust against loops added before them)
         alt = ("iter:" + ast.unparse(node.iter)) if isinstance(node, ast.For) else ("while:" + ast.unparse(node.test))
-        for k in (lab, alt):
+        cands = [lab, alt]
+        # the loop text a contract names may contain locals that have since been renamed: on the unchanged tree the loop
+        # with this ordinal had the text recorded in baseline/roles.json
+        old_text = (_roles().get(key) or {}).get("loops", {}).get(lab)
+        if old_text and old_text != alt:
+            from .front import loop_keys
+            if len(loop_keys(fr.fi.node)) == len((_roles().get(key) or {}).get("loops", {})):
+                cands.append(old_text)
+        for k in cands:
             kk = (key, k) if (key, k) in self.top.loop_specs else (k if (key == self.top.key and k in self.top.loop_specs) else None)
             if kk is not None:
                 self.matched_loop_specs.add(kk)
